@@ -26,7 +26,7 @@ def run(argv):
     runner.RUN_TAG = 'selftest'
     pat = argv[0] if argv else None
     caps = dict(checks.TIERS['quick'])
-    caps['max_unwind'] = 44
+    caps['max_unwind'] = 164   # c19_long compares 160-byte buffers
     # sample: per family the largest quick capacity (and the smallest non-trivial one)
     obs = []
     for f, d in sorted(checks.FAM.items()):
